@@ -4,8 +4,10 @@ package main
 // ctx.trusted and ends up in the evidence file under trusted_base.
 
 import (
+	"fmt"
 	"go/token"
 	"go/types"
+	"strings"
 
 	"golang.org/x/tools/go/ssa"
 )
@@ -51,31 +53,86 @@ func modelCmpEqual(f *Frame, st *State, r *Term, fn *ssa.Function, args []Val, p
 	return res
 }
 
-// modelSortSlice: the slice's elements are permuted in place; nothing else changes.
+// modelSortSlice: the slice's elements are permuted in place; nothing else changes. The comparison
+// closure is called with indices inside the slice only (its precondition is checked for those).
 func modelSortSlice(f *Frame, st *State, r *Term, fn *ssa.Function, args []Val, pos token.Pos) Val {
-	trust(f, fullName(fn)+" permutes the elements of its slice argument in place and touches nothing else (sortedness is not used)")
-	// the first argument is a slice (sort.Strings) or an interface holding one (sort.Slice)
+	trust(f, fullName(fn)+" permutes the elements of its slice argument in place, touches nothing else, and calls less(i, j) only with 0 <= i, j < len (sortedness is not used)")
 	pt := fn.Signature.Params().At(0).Type()
-	if _, isIface := pt.Underlying().(*types.Interface); isIface {
-		// without the dynamic type we cannot name the component: forget all element heaps
-		f.havocTop(st)
-		return TupleVal{}
+	a0 := f.asTerm(args[0])
+	var s *Term
+	var et types.Type
+	if isIfaceT(pt) {
+		var id int
+		if strings.HasPrefix(a0.Op, "box!") && len(a0.Args) == 1 {
+			fmt.Sscanf(a0.Op, "box!%d", &id)
+		}
+		if id < 1 || id > len(f.ctx.eng.sorts.typeByID) {
+			f.havocTop(st)
+			return TupleVal{}
+		}
+		sl, ok := f.ctx.eng.sorts.typeByID[id-1].Underlying().(*types.Slice)
+		if !ok {
+			f.havocTop(st)
+			return TupleVal{}
+		}
+		s, et = a0.Args[0], sl.Elem()
+	} else {
+		s, et = a0, pt.Underlying().(*types.Slice).Elem()
 	}
-	s := f.asTerm(args[0])
-	et := pt.Underlying().(*types.Slice).Elem()
 	es := f.sortOf(et)
-	f.permuteSlice(st, s, es)
+	if len(args) > 1 {
+		var cv *ClosureVal
+		switch x := args[1].(type) {
+		case ClosureVal:
+			cv = &x
+		case *Term:
+			if c, ok := f.ctx.closures[x.Op]; ok {
+				cv = &c
+			}
+		}
+		if cv != nil {
+			if ct := f.ctx.eng.contracts.Funcs[funcKey(cv.Fn)]; ct != nil && len(cv.Fn.Params) == 2 {
+				// arbitrary intermediate contents of the slice
+				mid := st.clone()
+				f.havocComps(mid, map[string]Sort{f.eName(et): ArrS(SInt, ArrS(SInt, es))})
+				i, j := f.ctx.fresh("sort_i", SInt), f.ctx.fresh("sort_j", SInt)
+				inr := And(Le(IntLit(0), i), Lt(i, SlcLen(s)), Le(IntLit(0), j), Lt(j, SlcLen(s)))
+				cf := &Frame{ctx: f.ctx, fn: cv.Fn, tmap: f.tmapFor(cv.Fn), vals: map[ssa.Value]Val{}, parent: f, depth: f.depth + 1, ghosts: map[string]SVal{}, curKey: map[*ssa.Range]*Term{}}
+				cf.vals[cv.Fn.Params[0]] = i
+				cf.vals[cv.Fn.Params[1]] = j
+				for k, fv := range cv.Fn.FreeVars {
+					if k < len(cv.Bindings) {
+						cf.vals[fv] = cv.Bindings[k]
+					}
+				}
+				cf.entry = mid
+				for k, rq := range ct.Requires {
+					se := cf.specEnv(mid, mid)
+					se.positive = false
+					label := rq.Label
+					if label == "" {
+						label = itoa(k)
+					}
+					f.check("pre", "->"+shortKey(ct.Key)+":"+label, And(r, inr), se.evalBool(rq.Expr), pos)
+				}
+			}
+		}
+	}
+	f.frameCheckCall(r, shortKey(funcKey(fn)), []modLoc{{comp: f.eName(et), srt: ArrS(SInt, ArrS(SInt, es)), ref: SlcBase(s)}}, true, pos)
+	f.permuteSlice(st, s, es, et)
 	return TupleVal{}
 }
 
-func (f *Frame) permuteSlice(st *State, s *Term, es Sort) {
-	en := compE(es)
+func (f *Frame) permuteSlice(st *State, s *Term, es Sort, et types.Type) {
+	en := f.eName(et)
 	E := f.ctx.comp(st, en, ArrS(SInt, ArrS(SInt, es)))
 	old := f.ctx.name("sort_old", Select(E, SlcBase(s)))
 	ne := f.ctx.fresh("sorted", ArrS(SInt, es))
 	f.ctx.nfresh++
 	perm := f.ctx.declFun(q("perm!"+itoa(f.ctx.nfresh)), []Sort{SInt}, SInt)
 	inv := f.ctx.declFun(q("perminv!"+itoa(f.ctx.nfresh)), []Sort{SInt}, SInt)
+	f.ctx.skolems["perm"] = append(f.ctx.skolems["perm"], &skolemFn{name: perm, sorts: []Sort{SInt}, res: SInt, site: "sort"})
+	f.ctx.skolems["perminv"] = append(f.ctx.skolems["perminv"], &skolemFn{name: inv, sorts: []Sort{SInt}, res: SInt, site: "sort"})
 	i := Atom("i!perm", SInt)
 	off, ln := SlcOff(s), SlcLen(s)
 	inr := func(x *Term) *Term { return And(Le(IntLit(0), x), Lt(x, ln)) }
@@ -116,8 +173,11 @@ func (f *Frame) pureExtern(st *State, fn *ssa.Function, args []Val) Val {
 		}
 		ts = append(ts, t)
 	}
+	if sig.Recv() != nil {
+		scalar = false
+	}
 	if scalar && len(ts) > 0 {
-		for i := 0; i < len(args); i++ {
+		for i := 0; i < len(args) && i < sig.Params().Len(); i++ {
 			switch sig.Params().At(i).Type().Underlying().(type) {
 			case *types.Basic:
 			default:
@@ -138,4 +198,113 @@ func (f *Frame) pureExtern(st *State, fn *ssa.Function, args []Val) Val {
 		return out
 	}
 	return f.freshResults(st, sig, "ext")
+}
+
+// confinedPkgs: library packages whose functions only write through the pointers they are handed
+// (receiver included) and into memory they allocate themselves. Their own objects are opaque: cog
+// observes them only through further library calls, whose results are unconstrained.
+var confinedPkgs = map[string]bool{
+	"encoding/json": true, "bytes": true, "io": true, "bufio": true, "os": true, "gopkg.in/yaml.v3": true, "io/fs": true,
+}
+
+func (e *Engine) externConfined(fn *ssa.Function) bool {
+	var p *types.Package
+	if fn.Pkg != nil {
+		p = fn.Pkg.Pkg
+	} else if fn.Object() != nil {
+		p = fn.Object().Pkg()
+	}
+	return p != nil && confinedPkgs[p.Path()]
+}
+
+// confinedExtern: havoc the root objects behind pointer arguments only; everything else is framed.
+func (f *Frame) confinedExtern(st *State, r *Term, fn *ssa.Function, args []Val, argTypes []types.Type) Val {
+	name := fullName(fn)
+	trust(f, name+" writes only through the pointers it is given (and memory it allocates), terminates and does not panic")
+	var locs []modLoc
+	addPtr := func(ref *Term, pt types.Type) {
+		p, ok := pt.Underlying().(*types.Pointer)
+		if !ok {
+			return
+		}
+		et := p.Elem()
+		if _, isStruct := et.Underlying().(*types.Struct); isStruct {
+			si := f.structInfo(et)
+			for i := range si.Fields {
+				locs = append(locs, modLoc{comp: compF(si, i), srt: ArrS(SInt, si.Fields[i].Sort), ref: ref})
+			}
+			return
+		}
+		if at, isArr := et.Underlying().(*types.Array); isArr {
+			es := f.sortOf(at.Elem())
+			locs = append(locs, modLoc{comp: f.eName(at.Elem()), srt: ArrS(SInt, ArrS(SInt, es)), ref: ref})
+			return
+		}
+		s := f.sortOf(et)
+		locs = append(locs, modLoc{comp: f.pName(et), srt: ArrS(SInt, s), ref: ref})
+	}
+	for i, a := range args {
+		t, ok := a.(*Term)
+		if !ok {
+			if lv, isLoc := a.(LocVal); isLoc && lv.kind == locHeap && len(lv.path) == 0 {
+				t = lv.ref
+			} else {
+				continue
+			}
+		}
+		at := f.subst(argTypes[i])
+		if _, isTP := types.Unalias(at).(*types.TypeParam); isTP {
+			continue
+		}
+		switch at.Underlying().(type) {
+		case *types.Pointer:
+			addPtr(t, at)
+		case *types.Slice:
+			es := f.sortOf(at.Underlying().(*types.Slice).Elem())
+			locs = append(locs, modLoc{comp: f.eName(at.Underlying().(*types.Slice).Elem()), srt: ArrS(SInt, ArrS(SInt, es)), ref: SlcBase(t)})
+		case *types.Interface:
+			// a boxed pointer: box!<id>(ref)
+			if strings.HasPrefix(t.Op, "box!") && len(t.Args) == 1 {
+				var id int
+				fmt.Sscanf(t.Op, "box!%d", &id)
+				if id >= 1 && id <= len(f.ctx.eng.sorts.typeByID) {
+					bt := f.ctx.eng.sorts.typeByID[id-1]
+					switch bt.Underlying().(type) {
+					case *types.Pointer:
+						addPtr(t.Args[0], bt)
+					case *types.Slice:
+						es := f.sortOf(bt.Underlying().(*types.Slice).Elem())
+						locs = append(locs, modLoc{comp: f.eName(bt.Underlying().(*types.Slice).Elem()), srt: ArrS(SInt, ArrS(SInt, es)), ref: SlcBase(t.Args[0])})
+					}
+				}
+			} else if t.Op != "anynil" {
+				// unknown dynamic value: cannot confine
+				f.havocTop(st)
+				return f.freshResults(st, fn.Signature, "ext")
+			}
+		}
+	}
+	if len(locs) > 0 {
+		f.frameCheckCall(r, shortKey(funcKey(fn)), locs, true, token.NoPos)
+		comps := map[string]Sort{}
+		for _, l := range locs {
+			comps[l.comp] = l.srt
+		}
+		old := copyHeap(st.heap)
+		oldBase := st.base
+		limit := st.alloc
+		f.havocComps(st, comps)
+		for k, srt := range comps {
+			before, ok := old[k]
+			if !ok {
+				before = f.ctx.constant(fmt.Sprintf("%s@%d", k, oldBase), srt)
+			}
+			f.ctx.assume(f.frameAxiom(k, before, st.heap[k], locs, limit))
+		}
+	} else {
+		na := f.ctx.fresh("alloc", SInt)
+		f.ctx.assume(Ge(na, st.alloc))
+		st.alloc = na
+	}
+	return f.freshResults(st, fn.Signature, "ext")
 }
